@@ -86,7 +86,7 @@ package memguard
 // ---- object invariant of a secret, under its lock. What other threads may have done to the buffer between two
 // critical sections (flip its protection, destroy it) is forgotten at every acquisition. ----
 //@ monitor (*secret).rw
-//@   facet C11
+//@   facet C11, C12
 //@   cond c
 //@   counts accessCounter as myreads
 //@   guards closing, accessCounter
@@ -173,7 +173,7 @@ package memguard
 //@   loop 1 invariant [C11:closing-under-lock] *s.rw == 2 && s.closing && (lbalive(s.buffer) ==> mapped(lbpage(s.buffer.Buffer)) && locked(lbpage(s.buffer.Buffer)) && s.accessCounter >= 0) && (lbalive(s.buffer) && s.accessCounter > 0 ==> prot(lbpage(s.buffer.Buffer)) == 1) && (!lbalive(s.buffer) ==> !mapped(lbpage(s.buffer.Buffer)) && !locked(lbpage(s.buffer.Buffer))) && cnt(securememory.InUseCounter) == old(cnt(securememory.InUseCounter)) && myreads(s) >= 0 && s.accessCounter >= myreads(s) && (s.accessCounter > 0 ==> lbalive(s.buffer))
 //@   ensures [C11:lock-released] *s.rw == 0
 //@   ensures [C11,C12:close-wipes-unlocks-and-unmaps] result == nil && !lbalive(s.buffer) && !mapped(lbpage(s.buffer.Buffer)) && !locked(lbpage(s.buffer.Buffer))
-//@   ensures [C11:later-access-refused] s.closing
+//@   ensures [C11,C12:later-access-refused] s.closing
 //@   ensures [C12:in-use-released-only-when-destroyed] cnt(securememory.InUseCounter) == old(cnt(securememory.InUseCounter)) - (if called(Destroy, 1) then 1 else 0)
 
 //@ func (*secret).IsClosed
